@@ -357,7 +357,14 @@ class KindInferenceMapper(Mapper):
         return self.map_product_like(expr.children)
 
     def map_quotient(self, expr):
-        return self.map_product_like((expr.numerator, expr.denominator))
+        kind = self.map_product_like((expr.numerator, expr.denominator))
+
+        # The language's '/' is true division: the quotient of two integers
+        # is not an integer.
+        if isinstance(kind, Integer):
+            return Scalar(is_real_valued=True)
+
+        return kind
 
     def map_power(self, expr):
         if self.check and not isinstance(self.rec(expr.exponent), Scalar):
